@@ -155,6 +155,13 @@ class Func(Sym):
         return 'Func(%s)' % self.qualname
 
 
+class PropertyCall:
+    """marker: attribute access that must run a property getter"""
+
+    def __init__(self, q, o):
+        self.q, self.o = q, o
+
+
 class Unbound:
     def __repr__(self):
         return '<unbound>'
@@ -168,6 +175,10 @@ class PyExc(Exception):
 
     def __init__(self, cls_name, msg=''):
         self.cls_name, self.msg = cls_name, msg
+
+
+class _NoMerge(Exception):
+    pass
 
 
 class OutsideSubset(Exception):
@@ -780,6 +791,12 @@ class Exec:
                 return Func('%s.%s' % (o.kind, name), self_val=o, model=meths[name])
             # method of the object's class
             m = self.method_of(o, name, st)
+            if isinstance(m, PropertyCall):
+                from . import models
+                r = models.call_repo(self, m.q, o, [], {}, st)
+                if len(r) != 1:
+                    raise OutsideSubset('forking property')
+                return r[0][1]
             if m is not None:
                 return m
             raise PyExc('AttributeError', '%s.%s' % (o.kind, name))
@@ -806,13 +823,20 @@ class Exec:
         cls = st.objs[o.oid].get('__class__')
         if cls is None:
             return None
+        import types
         for k in cls.__mro__:
             if name in vars(k):
                 fn = vars(k)[name]
-                if isinstance(fn, (staticmethod, classmethod)):
-                    fn = fn.__func__
                 q = '%s.%s.%s' % (k.__module__, k.__qualname__, name)
-                return Func(q, self_val=o)
+                if isinstance(fn, staticmethod):
+                    return Func(q, self_val=None)
+                if isinstance(fn, classmethod):
+                    return Func(q, self_val=cls)
+                if isinstance(fn, types.FunctionType):
+                    return Func(q, self_val=o)
+                if isinstance(fn, property):
+                    return PropertyCall(q, o)
+                return self.lift_global(fn, name)     # plain class attribute (data)
         return None
 
     def e_Subscript(self, node, st):
@@ -1147,10 +1171,92 @@ class Exec:
     def s_If(self, stmt, st):
         out = []
         for s, c in self.eval(stmt.test, st):
+            base_len = len(s.pc)
+            branches = []
             for s1, b in self.decide(s, self.truth(c, s)):
                 s1.trace.append('L%d:%s' % (stmt.lineno, 'T' if b else 'F'))
-                out.extend(self.exec_block(stmt.body if b else stmt.orelse, s1))
+                branches.append(self.exec_block(stmt.body if b else stmt.orelse, s1))
+            # join: two branches that both simply fall through are merged into one state (values become ite terms)
+            if len(branches) == 2 and all(len(r) == 1 and r[0][1] == Outcome.NEXT for r in branches):
+                m = self.merge_states(branches[0][0][0], branches[1][0][0], base_len)
+                if m is not None:
+                    out.append((m, Outcome.NEXT, None))
+                    continue
+            for r in branches:
+                out.extend(r)
         return out
+
+    # ---------------------------------------------------------------- state merging at joins
+    def merge_val(self, a, b, c):
+        """value that is a if c else b, or raise _NoMerge"""
+        if a is b:
+            return a
+        if not isinstance(a, Sym) and not isinstance(b, Sym) and type(a) is type(b) and not isinstance(a, tuple):
+            try:
+                if a == b:
+                    return a
+            except Exception:
+                pass
+        if isinstance(a, tuple) and isinstance(b, tuple) and len(a) == len(b) and not self.W.is_tt(a) \
+                and not self.W.is_tt(b):
+            return tuple(self.merge_val(x, y, c) for x, y in zip(a, b))
+        if isinstance(a, (bool, SBool)) and isinstance(b, (bool, SBool)):
+            za = z3.BoolVal(a) if isinstance(a, bool) else a.z
+            zb = z3.BoolVal(b) if isinstance(b, bool) else b.z
+            return SBool(z3.If(c, za, zb))
+        if self.is_intlike(a) and self.is_intlike(b) and not isinstance(a, (bool, SBool)) \
+                and not isinstance(b, (bool, SBool)):
+            return SInt(z3.If(c, self.z_int(a), self.z_int(b)))
+        if self.is_strlike(a) and self.is_strlike(b):
+            return SStr(z3.If(c, self.z_str(a), self.z_str(b)))
+        if self.is_ttlike(a) and self.is_ttlike(b):
+            return STy(z3.If(c, self.z_tt(a), self.z_tt(b)))
+        if (a is None or self.is_ttlike(a)) and (b is None or self.is_ttlike(b)):
+            return STy(z3.If(c, self.z_tt(a), self.z_tt(b)))
+        h = getattr(self, 'merge_ext', None)
+        if h:
+            r = h(a, b, c)
+            if r is not NotImplemented:
+                return r
+        raise _NoMerge()
+
+    def merge_states(self, s1, s2, base_len):
+        if s1.pc[:base_len] != s2.pc[:base_len] and any(x is not y for x, y in zip(s1.pc[:base_len], s2.pc[:base_len])):
+            return None
+        e1, e2 = s1.pc[base_len:], s2.pc[base_len:]
+        c1 = z3.And(*e1) if len(e1) > 1 else (e1[0] if e1 else z3.BoolVal(True))
+        c2 = z3.And(*e2) if len(e2) > 1 else (e2[0] if e2 else z3.BoolVal(True))
+        try:
+            if s1.lists.keys() != s2.lists.keys() or any(s1.lists[k] is not s2.lists[k] for k in s1.lists):
+                return None
+            if s1.farr.keys() != s2.farr.keys() or any(s1.farr[k] is not s2.farr[k] for k in s1.farr):
+                return None
+            m = s1.fork()
+            m.pc = s1.pc[:base_len] + [z3.Or(c1, c2)]
+            for name in set(s1.env) | set(s2.env):
+                if name in s1.env and name in s2.env:
+                    m.env[name] = self.merge_val(s1.env[name], s2.env[name], c1)
+                else:
+                    # bound on one side only: keep it unbound after the join (use would be an UnboundLocalError)
+                    m.env.pop(name, None)
+            for name in set(s1.ghost) | set(s2.ghost):
+                if name in s1.ghost and name in s2.ghost:
+                    m.ghost[name] = self.merge_val(s1.ghost[name], s2.ghost[name], c1)
+            for oid in set(s1.objs) | set(s2.objs):
+                if oid in s1.objs and oid in s2.objs:
+                    f1, f2 = s1.objs[oid], s2.objs[oid]
+                    if f1.keys() != f2.keys():
+                        return None
+                    m.objs[oid] = {k: self.merge_val(f1[k], f2[k], c1) for k in f1}
+                else:
+                    m.objs[oid] = dict(s1.objs.get(oid) or s2.objs.get(oid))
+            m.trace = s1.trace[:-1] + ['join']
+            m.notes = list(s1.notes) if s1.notes == s2.notes else None
+            if m.notes is None:
+                return None
+            return m
+        except _NoMerge:
+            return None
 
     def s_Break(self, stmt, st):
         return [(st, Outcome.BREAK, None)]
